@@ -1,5 +1,13 @@
 """C19 — runs leave inputs untouched, scratch space empty, and do not interfere.
 
+Histories: mapping runs (run_mapping) sharing scratch and output directories (success after success, after
+failure, stale files under every temporary-name pattern, obsm, log of an earlier run), the same WITHOUT a scratch
+directory (tmp_dir=None: result buffer in extended_result_dir = the output directory / another directory / the
+system temporary directory; TMPDIR and the working directory are inside the sandbox and observed), concurrent
+pairs, the three preparatory stages, and the type-assignment stage called DIRECTLY with a results_output_path
+that is shared (chunk files of an earlier run under every plausible buffer name, after a run that was killed,
+after a successful run, two calls at the same time).
+
 Every run of a real stage happens in a child interpreter under strace
 (harness/fstrace.py).  Per traced run:
  (a) correspondence: the observed operation trace is accepted by the extracted acceptor
@@ -143,15 +151,33 @@ def compare_final(nm, model_fs, ids, observed, region=None):
 
 # ------------------------------------------------------------------ declarations per stage
 def declare(job):
+    """What the run was given.  `scratch`: the scratch root of the model; `scratch2`: further directories the
+    stage was given for temporary data (modelled as part of the one scratch root, see overlay_path)."""
     a = job['args']
     st = job['stage']
     if st == 'mapping':
         cfg = a['config']
         outs = [cfg[k] for k in ('extended_result_path', 'csv_result_path', 'hdf5_result_path', 'log_path',
                                  'summary_metadata_path') if cfg.get(k)]
+        scratch, scratch2 = cfg['tmp_dir'], []
+        if scratch is None:
+            # no scratch directory given: temporary files go to the system temporary directory (tempfile's
+            # default, TMPDIR of the run) and the per-process result buffer to extended_result_dir (schema:
+            # "Optional temporary directory into which assignment results will be saved from each process")
+            scratch = job['systmp']
+            erd = cfg.get('extended_result_dir')
+            if erd and erd != scratch:
+                scratch2 = [erd]
         return {'inputs': [cfg['query_path'], cfg['precomputed_stats']['path'], cfg['query_markers']['serialized_lookup']],
-                'outputs': outs, 'scratch': cfg['tmp_dir'], 'query': cfg['query_path'],
+                'outputs': outs, 'scratch': scratch, 'scratch2': scratch2, 'query': cfg['query_path'],
                 'obsm': cfg.get('obsm_key') is not None, 'strict': True}
+    if st == 'assign':
+        # the type-assignment stage called directly: results_output_path is where it buffers the per-chunk
+        # results, tmp_dir (or, without one, the system temporary directory) where the query is rewritten
+        other = a['tmp_dir'] or job['systmp']
+        return {'inputs': [a['query'], a['stats'], a['marker_cache']], 'outputs': [],
+                'scratch': a['results_output_path'], 'scratch2': [other] if other != a['results_output_path'] else [],
+                'query': a['query'], 'obsm': False, 'strict': False}
     if st == 'stats':
         return {'inputs': [a['h5ad']], 'outputs': [a['out']], 'scratch': a['tmp_dir'], 'query': a['h5ad'],
                 'obsm': False, 'strict': False}
@@ -162,6 +188,46 @@ def declare(job):
         return {'inputs': [a['refm'], a['stats']], 'outputs': [], 'scratch': a['tmp_dir'], 'query': a['refm'],
                 'obsm': False, 'strict': False}
     raise ValueError(st)
+
+
+# ------------------------------------------------------------------ more than one directory for temporary data
+OVERLAY = '~second-scratch-%d~'
+
+
+def overlay_path(p, decl):
+    """The model has ONE scratch root.  A run that was given a second directory for temporary data (S2) is
+    modelled with S2's entries as entries of the scratch root under names no real entry can have:
+    S2/x/rest -> scratch/~second-scratch-i~x/rest.  Declared outputs keep their place; S2 itself too (so that
+    listing it, like listing the scratch root, stays refused).  The rules applied to S2 are thereby exactly the
+    rules of the scratch root: new names only, gone at Return, nothing older read, changed, listed or removed."""
+    for i, s2 in enumerate(decl.get('scratch2') or []):
+        if p.startswith(s2 + '/') and p not in decl['outputs']:
+            return decl['scratch'] + '/' + (OVERLAY % i) + p[len(s2) + 1:]
+    return p
+
+
+def overlay_rec(rec, decl):
+    if not decl.get('scratch2'):
+        return rec
+
+    def f(p):
+        return overlay_path(p, decl)
+
+    def fop(o):
+        o = dict(o, p=f(o['p']))
+        if 'q' in o:
+            o['q'] = f(o['q'])
+        return o
+
+    def fsnap(snap):
+        out = {f(p): v for p, v in snap.items()}
+        if len(out) != len(snap):
+            raise RuntimeError('overlay of the second scratch directory is not injective')
+        return out
+    res = dict(rec['res'])
+    for k in ('before', 'at_return', 'after'):
+        res[k] = fsnap(res[k])
+    return dict(rec, res=res, ops=[fop(o) for o in rec['ops']], late=[fop(o) for o in rec['late']])
 
 
 # ------------------------------------------------------------------ the checks on one traced run
@@ -176,7 +242,33 @@ def f9_only(new_in_scratch, scratch):
     return True
 
 
-def check_run(ctx, rec, history, baseline=None, region_only=False, expect_ok=None):
+RESULT_CLASSES = {'result-differs-from-undisturbed-run', 'c19-stale-buffer-consumed', 'c19-concurrent-result-differs',
+                  'c19-result-depends-on-scratch-configuration'}
+LEFT_CLASSES = {'F9-result-buffer-left-after-failed-mapping', 'scratch-not-restored', 'c19-shared-dir-not-restored',
+                'c19-system-tmp-not-restored', 'c19-buffer-dir-not-restored', 'c19-output-dir-has-extra-entries',
+                'F9c-result-buffer-left-in-extended-result-dir-after-failed-mapping',
+                'F9d-query-marker-file-left-in-system-tmp-without-scratch-dir'}
+
+
+def no_scratch_given(job):
+    return job['stage'] == 'mapping' and job['args']['config']['tmp_dir'] is None
+
+
+def scratch_class(job, sdir, older_touched):
+    """Class of 'a directory given for temporary data is not as it was', by what the history is about."""
+    if job['stage'] == 'assign':
+        return 'c19-stale-buffer-files-touched' if older_touched else 'c19-shared-dir-not-restored'
+    if no_scratch_given(job):
+        return 'c19-system-tmp-not-restored' if sdir == job.get('systmp') else 'c19-buffer-dir-not-restored'
+    return 'scratch-not-restored'
+
+
+def under_any(p, dirs):
+    return any(p.startswith(d + '/') for d in dirs)
+
+
+def check_run(ctx, rec, history, baseline=None, region_only=False, expect_ok=None,
+              result_class='result-differs-from-undisturbed-run'):
     """(a) + (b) for one traced run.  `baseline`: result_of() of the undisturbed run."""
     job, res = rec['job'], rec['res']
     decl = declare(job)
@@ -197,12 +289,15 @@ def check_run(ctx, rec, history, baseline=None, region_only=False, expect_ok=Non
     ctx.count((history, label, ctx.evaluations), nontrivial=nontrivial)
     if expect_ok is not None and res['ok'] != expect_ok:
         d = dict(desc, **{'class': 'c19-run-outcome-unexpected', 'traceback': res.get('traceback')})
-        ctx.violation(f'{label}: run was expected to {"succeed" if expect_ok else "fail"} but '
+        ctx.violation(f'{history}/{label}: run was expected to {"succeed" if expect_ok else "fail"} but '
                       f'{"succeeded" if res["ok"] else "failed: " + str(res["error"])}', d)
         return None
     before, at_ret, after = res['before'], res['at_return'], res['after']
     scratch = decl['scratch']
+    # every directory the run was given for temporary data
+    tmp_dirs = [scratch] + [d for d in decl.get('scratch2') or [] if d != scratch]
     out_dirs = sorted({os.path.dirname(p) for p in decl['outputs']}) or [r for r in job['roots'] if r.endswith('/out')]
+    no_scratch = no_scratch_given(job)
 
     # ---------------- (b) the property on the observation
     bad_b = []
@@ -211,29 +306,43 @@ def check_run(ctx, rec, history, baseline=None, region_only=False, expect_ok=Non
             continue
         if before.get(i) != after.get(i) or before.get(i) != at_ret.get(i):
             bad_b.append(('input-modified', f'input {i} changed: {before.get(i)} -> {after.get(i)}'))
-    own = (lambda p: True)
-    if region_only:
-        # a concurrent partner is at work in the same directories: judge only names this run made
-        made = {o['p'] for o in rec['ops'] if o['k'] in ('Create', 'Mkdir')} | {o['q'] for o in rec['ops'] if 'q' in o}
-        tops = {p for p in made if os.path.dirname(p) == scratch}
-        own = (lambda p: any(p == t or p.startswith(t + '/') for t in tops) or p in decl['outputs'])
-    sc_before = {p: v for p, v in before.items() if p.startswith(scratch + '/') and own(p)}
-    left = []
-    for snap_name, snap in (('at return', at_ret), ('after all descendants exited', after)):
-        sc_now = {p: v for p, v in snap.items() if p.startswith(scratch + '/') and own(p)}
-        if sc_now != sc_before:
-            new = sorted(set(sc_now) - set(sc_before))
-            gone = sorted(set(sc_before) - set(sc_now))
-            chg = sorted(p for p in set(sc_now) & set(sc_before) if sc_now[p] != sc_before[p])
-            left.append((snap_name, new, gone, chg))
-    if left and (res['ok'] or decl['strict']):
-        snap_name, new, gone, chg = left[-1]
-        if not res['ok'] and not gone and not chg and f9_only(new, scratch) and \
-                all(f9_only(x[1], scratch) and not x[2] and not x[3] for x in left):
-            bad_b.append(('F9-result-buffer-left-after-failed-mapping',
-                          f'failed mapping run left {new[:4]} in the scratch directory'))
-        else:
-            bad_b.append(('scratch-not-restored', f'scratch differs {snap_name}: new={new[:6]} gone={gone[:6]} changed={chg[:6]}'))
+    # a directory given for temporary data that also holds the requested outputs is judged as an output directory
+    for sdir in [d for d in tmp_dirs if d not in out_dirs]:
+        own = (lambda p: True)
+        if region_only:
+            # a concurrent partner is at work in the same directories: judge only names this run made
+            made = {o['p'] for o in rec['ops'] if o['k'] in ('Create', 'Mkdir')} | {o['q'] for o in rec['ops'] if 'q' in o}
+            tops = {p for p in made if os.path.dirname(p) == sdir}
+            own = (lambda p, tops=tops: any(p == t or p.startswith(t + '/') for t in tops) or p in decl['outputs'])
+        sc_before = {p: v for p, v in before.items() if p.startswith(sdir + '/') and own(p)}
+        left = []
+        for snap_name, snap in (('at return', at_ret), ('after all descendants exited', after)):
+            sc_now = {p: v for p, v in snap.items() if p.startswith(sdir + '/') and own(p)}
+            if sc_now != sc_before:
+                new = sorted(set(sc_now) - set(sc_before))
+                gone = sorted(set(sc_before) - set(sc_now))
+                chg = sorted(p for p in set(sc_now) & set(sc_before) if sc_now[p] != sc_before[p])
+                left.append((snap_name, new, gone, chg))
+        if left and (res['ok'] or decl['strict']):
+            snap_name, _, gone, chg = left[-1]
+            new = sorted({p for x in left for p in x[1]})
+            gone_any = sorted({p for x in left for p in x[2]})
+            chg_any = sorted({p for x in left for p in x[3]})
+            what = f'{sdir} differs {snap_name}: new={new[:6]} gone={gone_any[:6]} changed={chg_any[:6]}'
+            if gone_any or chg_any:
+                bad_b.append((scratch_class(job, sdir, True), 'entries of earlier runs removed or changed: ' + what))
+            # every new entry is classed by the top-level name it sits under
+            for p in new:
+                top = os.path.relpath(p, sdir).split('/')[0]
+                if not res['ok'] and job['stage'] == 'mapping' and top.startswith('result_buffer_'):
+                    bad_b.append(('F9-result-buffer-left-after-failed-mapping',
+                                  f'failed mapping run left {p} in the scratch directory'))
+                elif no_scratch and sdir == job.get('systmp') and p == sdir + '/' + top and \
+                        top.startswith('query_marker_') and top.endswith('.h5') and after.get(p, at_ret.get(p)) != 'dir':
+                    bad_b.append(('F9d-query-marker-file-left-in-system-tmp-without-scratch-dir',
+                                  f'mapping run without a scratch directory left {p} in the system temporary directory'))
+                else:
+                    bad_b.append((scratch_class(job, sdir, False), f'scratch not restored ({p}): ' + what))
     for od in out_dirs:
         ob = {p: v for p, v in before.items() if p.startswith(od + '/')}
         oa = {p: v for p, v in after.items() if p.startswith(od + '/')}
@@ -242,7 +351,16 @@ def check_run(ctx, rec, history, baseline=None, region_only=False, expect_ok=Non
         new = sorted(set(oa) - set(ob))
         extra = [p for p in new if p not in decl['outputs']]
         if extra:
-            bad_b.append(('created-outside-outputs', f'files created outside the requested outputs: {extra[:6]}'))
+            if no_scratch and not res['ok'] and od in tmp_dirs and f9_only(extra, od):
+                bad_b.append(('F9c-result-buffer-left-in-extended-result-dir-after-failed-mapping',
+                              f'failed mapping run without a scratch directory left {extra[:4]} in extended_result_dir, '
+                              'next to the outputs'))
+            elif no_scratch:
+                bad_b.append(('c19-output-dir-has-extra-entries',
+                              f'run without a scratch directory: the output directory {od} holds entries that are neither '
+                              f'older than the run nor requested outputs: {extra[:6]}'))
+            else:
+                bad_b.append(('created-outside-outputs', f'files created outside the requested outputs: {extra[:6]}'))
         gone = sorted(p for p in set(ob) - set(oa) if p not in decl['outputs'])
         chg = sorted(p for p in set(ob) & set(oa) if ob[p] != oa[p] and p not in decl['outputs'])
         if gone or chg:
@@ -252,10 +370,19 @@ def check_run(ctx, rec, history, baseline=None, region_only=False, expect_ok=Non
             if missing:
                 bad_b.append(('output-missing', f'requested outputs missing: {missing}'))
     if not region_only:
-        # nothing anywhere else in the sandbox either (input directory, ...)
+        # nothing anywhere else in the sandbox either (input directory, working directory, system temporary
+        # directory, directories of other runs ...)
         for p in sorted(set(after) - set(before)):
-            if not p.startswith(scratch + '/') and not any(p.startswith(od + '/') for od in out_dirs):
-                bad_b.append(('created-outside-outputs', f'created outside scratch and outputs: {p}'))
+            if not under_any(p, tmp_dirs) and not under_any(p, out_dirs):
+                if job.get('cwd') and p.startswith(job['cwd'] + '/'):
+                    bad_b.append(('c19-working-dir-has-new-entries', f'left in the working directory: {p}'))
+                elif job.get('systmp') and p.startswith(job['systmp'] + '/'):
+                    bad_b.append(('c19-system-tmp-not-restored', f'left in the system temporary directory: {p}'))
+                else:
+                    bad_b.append(('created-outside-outputs', f'created outside scratch and outputs: {p}'))
+        for p in sorted(set(before) - set(after)):
+            if not under_any(p, tmp_dirs) and not under_any(p, out_dirs) and p not in decl['inputs']:
+                bad_b.append(('bystander-files-changed', f'removed outside scratch and outputs: {p}'))
     if baseline is not None and res['ok']:
         mine = rec.get('result')
         if mine.get('obsm_present') is False:
@@ -266,13 +393,22 @@ def check_run(ctx, rec, history, baseline=None, region_only=False, expect_ok=Non
                 if isinstance(baseline.get(k), dict) and isinstance(mine.get(k), dict):
                     ks = [x for x in sorted(set(baseline[k]) | set(mine[k])) if baseline[k].get(x) != mine[k].get(x)]
                     sub = f' (entries {ks[:6]}: {str(baseline[k].get(ks[0]))[:200]} vs {str(mine[k].get(ks[0]))[:200]})'
-                bad_b.append(('result-differs-from-undisturbed-run', f'{k} differs from the undisturbed run{sub}'))
+                elif isinstance(baseline.get(k), list) and isinstance(mine.get(k), list):
+                    ix = [i for i in range(max(len(baseline[k]), len(mine[k])))
+                          if i >= len(baseline[k]) or i >= len(mine[k]) or baseline[k][i] != mine[k][i]]
+                    sub = (f' (lengths {len(baseline[k])} vs {len(mine[k])}, entries {ix[:8]} differ: '
+                           f'{str(baseline[k][ix[0]] if ix[0] < len(baseline[k]) else None)[:200]} vs '
+                           f'{str(mine[k][ix[0]] if ix[0] < len(mine[k]) else None)[:200]})')
+                bad_b.append((result_class, f'{k} differs from the undisturbed run{sub}'))
     lp = job['args'].get('config', {}).get('log_path') if job['stage'] == 'mapping' else None
     if lp and lp in before and before[lp] != 'dir' and os.path.exists(lp):
         old = job.get('stale_log_text')
         if old and old in open(lp).read():
             bad_b.append(('log-appended-to-file-of-earlier-run',
                           f'log file {lp} still starts with the text an earlier run left there'))
+    if job['stage'] == 'assign':
+        # report the dependence of the result first (order of reporting only)
+        bad_b.sort(key=lambda x: 0 if x[0] in RESULT_CLASSES else 1)
     seen = set()
     for cls, what in bad_b:
         if cls in seen:
@@ -282,9 +418,11 @@ def check_run(ctx, rec, history, baseline=None, region_only=False, expect_ok=Non
         ctx.violation(f'{history}/{label}: {what}', dict(desc, **{'class': cls, 'detail': [w for c, w in bad_b if c == cls]}))
 
     # ---------------- (a) correspondence with the acceptor
-    nm = Namer(all_paths(rec, decl, extra=list(at_ret) + list(after)))
-    fs0, ids = enc_fs(nm, before)
-    case = (1901, [enc_config(nm, decl), fs0, enc_trace(nm, rec)])
+    rec_a = overlay_rec(rec, decl)
+    res_a = rec_a['res']
+    nm = Namer(all_paths(rec_a, decl, extra=list(res_a['at_return']) + list(res_a['after'])))
+    fs0, ids = enc_fs(nm, res_a['before'])
+    case = (1901, [enc_config(nm, decl), fs0, enc_trace(nm, rec_a)])
     r = ctx.model([case])[0]
     desc['model'] = r if len(json.dumps(r)) < 2000 else '(long)'
     b_classes = {c for c, _ in bad_b}
@@ -299,7 +437,7 @@ def check_run(ctx, rec, history, baseline=None, region_only=False, expect_ok=Non
         desc['reject_code'] = code
         ctx.dist('acceptor', f'rejected:{code}')
         # a rejection that (b) explains is the same finding seen through the model
-        explained = ((code == 7 and ('F9-result-buffer-left-after-failed-mapping' in b_classes or 'scratch-not-restored' in b_classes))
+        explained = ((code == 7 and (b_classes & LEFT_CLASSES))
                      or (code == 11 and 'log-appended-to-file-of-earlier-run' in b_classes))
         if not explained:
             ctx.disagreements_checked += 1
@@ -310,10 +448,10 @@ def check_run(ctx, rec, history, baseline=None, region_only=False, expect_ok=Non
         return rec
     ctx.dist('acceptor', 'accepted')
     ctx.traces_validated += 1
-    if bad_b and not (b_classes <= {'result-differs-from-undisturbed-run', 'output-missing'}):
+    if bad_b and not (b_classes <= (RESULT_CLASSES | {'output-missing'})):
         ctx.violation(f'{history}/{label}: acceptor accepts a trace although the observation violates the property: {sorted(b_classes)}',
                       dict(desc, **{'class': 'corr:FsModel.accept-too-permissive'}), no_input=True)
-    observed = after if not rec['late'] else after
+    observed = res_a['after']
     region = None
     if region_only:
         fresh = {nm.back[n] for n in verdict[2]}
@@ -348,8 +486,20 @@ def roots_of(sb):
     return [str(sb / 'in'), str(sb / 'out'), str(sb / 'tmp')]
 
 
+def with_process_dirs(job, sb):
+    """Give the run a system temporary directory (TMPDIR) and a working directory of its own inside the
+    sandbox, so that what it does there is traced and listed like everything else."""
+    for s in ('systmp', 'cwd', 'tmp2'):
+        (sb / s).mkdir(parents=True, exist_ok=True)
+    job['systmp'] = str(sb / 'systmp')
+    job['cwd'] = str(sb / 'cwd')
+    job['roots'] = roots_of(sb) + [str(sb / 'systmp'), str(sb / 'cwd'), str(sb / 'tmp2')]
+    return job
+
+
 def mapping_job(label, sb, src, tag, *, same_names=False, log=True, obsm_key=None, fault=None,
-                n_processors=2, chunk_size=3, seed=5, break_input=None, private_query=False, pre=None):
+                n_processors=2, chunk_size=3, seed=5, break_input=None, private_query=False, pre=None,
+                no_scratch=None):
     """A mapping job in sandbox `sb`; inputs are copies of src/* placed in sb/in once."""
     ind = sb / 'in'
     for fn in ('stats.h5', 'markers.json', 'query.h5ad'):
@@ -375,8 +525,16 @@ def mapping_job(label, sb, src, tag, *, same_names=False, log=True, obsm_key=Non
         with h5py.File(bad, 'w') as f_:
             f_.create_dataset('not_a_stats_file', data=np.arange(3))
         cfg['precomputed_stats']['path'] = str(bad)
-    return {'label': label, 'stage': 'mapping', 'args': {'config': cfg}, 'fault': fault, 'pre': pre,
-            'roots': roots_of(sb)}
+    job = {'label': label, 'stage': 'mapping', 'args': {'config': cfg}, 'fault': fault, 'pre': pre,
+           'roots': roots_of(sb)}
+    with_process_dirs(job, sb)
+    if no_scratch is not None:
+        # tmp_dir=None (the schema allows it): temporary files in the system temporary directory, the result
+        # buffer in extended_result_dir: the output directory ('out'), another directory ('tmp'), or (None) the
+        # system temporary directory as well
+        cfg['tmp_dir'] = None
+        cfg['extended_result_dir'] = {'out': str(sb / 'out'), 'tmp': str(sb / 'tmp'), 'none': None}[no_scratch]
+    return job
 
 
 def run_batches(ctx, batches, name):
@@ -421,6 +579,26 @@ def history_mapping(ctx, k):
         (mapping_job('log-exists', shared, src, 'r4', pre={'write': {log_r4: STALE_LOG}}, **kw), 'log-file-of-earlier-run', True),
     ]
     jobs[-1][0]['stale_log_text'] = STALE_LOG.strip()
+    # ---- the same mapping without a scratch directory (tmp_dir=None): first in fresh directories, then in the
+    # shared ones (stale files under every temporary-name pattern also in the system temporary directory)
+    fresh_ns = sandbox(base, 'fresh_ns')
+    plant_sys = {'plant': {'dirs': [str(shared / 'systmp')], 'seed': rng.randrange(10 ** 6)}}
+    H = 'no-scratch-dir:'
+    jobs += [
+        (mapping_job('noscratch-fresh', fresh_ns, src, 'n0', no_scratch='out', **kw), H + 'first-in-fresh-dirs', True),
+        (mapping_job('noscratch-buffer-in-output-dir', shared, src, 'n1', no_scratch='out', pre=plant_sys, **kw),
+         H + 'buffer-in-output-dir', True),
+        (mapping_job('noscratch-again-same-names', shared, src, 'n1', no_scratch='out', log=False, **kw),
+         H + 'success-after-success', True),
+        (mapping_job('noscratch-buffer-in-system-tmp', shared, src, 'n2', no_scratch='none', **kw),
+         H + 'buffer-in-system-tmp', True),
+        (mapping_job('noscratch-buffer-in-other-dir', shared, src, 'n3', no_scratch='tmp', **kw),
+         H + 'buffer-in-other-dir', True),
+        (mapping_job('noscratch-fail-invalid-input', shared, src, 'n4', no_scratch='out',
+                     break_input=rng.choice(fail_kinds), **kw), H + 'failing-run', False),
+        (mapping_job('noscratch-after-failure', shared, src, 'n5', no_scratch=rng.choice(['out', 'none', 'tmp']), **kw),
+         H + 'success-after-failure', True),
+    ]
     recs = run_batches(ctx, [[j for j, _, _ in jobs]], f'seq{k}')[0]
     baseline = recs[0]['result']
     for rec, (_, hist, exp) in zip(recs, jobs):
@@ -436,22 +614,44 @@ def history_concurrent(ctx, k, base, src, kw, baseline):
     """Two mapping runs at the same time, same scratch and output directories."""
     rng = ctx.rng
     sb = sandbox(base, f'conc{k}')
-    wd = ctx.scratch / 'trace' / f'conc{k}'
-    wd.mkdir(parents=True, exist_ok=True)
     obsm = rng.random() < 0.5
     ja = mapping_job('concurrent-A', sb, src, 'A', obsm_key='ctm_verif' if obsm else None, private_query=obsm, **kw)
     jb = mapping_job('concurrent-B', sb, src, 'B', **kw)
+    concurrent_pair(ctx, k, sb, ja, jb, baseline, baseline, 'concurrent')
+
+
+def concurrent_pair(ctx, k, sb, ja, jb, baseline_a, baseline_b, history,
+                    result_class='result-differs-from-undisturbed-run'):
+    """Two runs at the same time in the same directories: each judged on its own (region), then the pair as ONE
+    interleaving through the two-run acceptor."""
+    wd = ctx.scratch / 'trace' / f'conc{k}'
+    wd.mkdir(parents=True, exist_ok=True)
     ja['wait_for'] = {'mine': str(wd / 'readyA'), 'other': str(wd / 'readyB')}
     jb['wait_for'] = {'mine': str(wd / 'readyB'), 'other': str(wd / 'readyA')}
-    before = fstrace.snapshot(roots_of(sb))
+    roots = sorted(set(ja['roots']) | set(jb['roots']))
+    before = fstrace.snapshot(roots)
     (ra,), (rb,) = run_batches(ctx, [[ja], [jb]], f'conc{k}')
-    after = fstrace.snapshot(roots_of(sb))
+    after = fstrace.snapshot(roots)
     overlap = ra['t0'] < rb['t1'] and rb['t0'] < ra['t1']
     ctx.dist('concurrent-overlap', 'overlapping' if overlap else 'not-overlapping')
-    for rec in (ra, rb):
-        check_run(ctx, rec, 'concurrent', baseline, region_only=True, expect_ok=True)
-    # the pair as ONE interleaving through the two-run acceptor
+    for rec, bl in ((ra, baseline_a), (rb, baseline_b)):
+        check_run(ctx, rec, history, bl, region_only=True, expect_ok=True, result_class=result_class)
+    # what the pair leaves together: nothing but the requested outputs (each run alone is judged on the names it made)
     da, db = declare(ja), declare(jb)
+    wanted = set(da['outputs']) | set(db['outputs'])
+    wr = {da['query']} if da['obsm'] else set()
+    wr |= {db['query']} if db['obsm'] else set()
+    new = sorted(p for p in set(after) - set(before) if p not in wanted)
+    gone = sorted(set(before) - set(after))
+    chg = sorted(p for p in set(before) & set(after) if before[p] != after[p] and p not in wanted and p not in wr)
+    if (new or gone or chg) and ra['res']['ok'] and rb['res']['ok']:
+        ctx.violation(f'{history} pair {k}: after both runs returned the shared directories are not what they were plus the '
+                      f'requested outputs: new={new[:6]} gone={gone[:6]} changed={chg[:6]}',
+                      {'class': 'c19-concurrent-pair-left-something', 'history': history, 'jobs': [ja, jb],
+                       'new': new[:20], 'gone': gone[:20], 'changed': chg[:20]})
+    if da.get('scratch2') or db.get('scratch2'):
+        raise RuntimeError('concurrent pairs are run with ONE directory for temporary data (the two-run model has one scratch root)')
+    # the pair as ONE interleaving through the two-run acceptor
     paths = set(before) | set(after) | all_paths(ra, da) | all_paths(rb, db)
     nm = Namer(paths)
     fs0, ids = enc_fs(nm, before)
@@ -465,9 +665,9 @@ def history_concurrent(ctx, k, base, src, kw, baseline):
     switches = sum(1 for i in range(1, len(il)) if il[i][0] != il[i - 1][0])
     ctx.dist('interleaving-switches', 'none' if switches <= 1 else ('<10' if switches < 10 else '>=10'))
     r = ctx.model([(1902, [enc_config(nm, da), enc_config(nm, db), fs0, il])])[0]
-    desc = {'history': 'concurrent-pair', 'jobs': [ja, jb], 'n_ops': len(il), 'switches': switches,
+    desc = {'history': history + '-pair', 'jobs': [ja, jb], 'n_ops': len(il), 'switches': switches,
             'model': r if len(json.dumps(r)) < 1500 else '(long)'}
-    ctx.count(('concurrent-pair', k), nontrivial=overlap and switches >= 2)
+    ctx.count((history + '-pair', k), nontrivial=overlap and switches >= 2)
     if r[0] != 0 or r[1][0] != 0:
         ctx.disagreements_checked += 1
         ctx.violation(f'concurrent pair {k}: the two-run acceptor rejects the observed interleaving: {r}',
@@ -482,6 +682,152 @@ def history_concurrent(ctx, k, base, src, kw, baseline):
         ctx.disagreements_checked += 1
         ctx.violation(f'concurrent pair {k}: final file system of the two-run model differs from the listing: {diffs[:5]}',
                       dict(desc, **{'class': 'corr:FsModel.final-fs-2', 'diffs': diffs[:20]}), no_input=True)
+
+
+# ------------------------------------------------------------------ the type-assignment stage called directly
+BUFFER_ALPHABET = 'abcdefghijklmnopqrstuvwxyz0123456789_'      # tempfile._RandomNameSequence.characters
+
+
+def random_suffix(rng):
+    return ''.join(rng.choice(BUFFER_ALPHABET) for _ in range(8))
+
+
+def buffer_names(rng):
+    """Every plausible name of the stage's per-chunk buffer directory below results_output_path: the mkdtemp
+    pattern election.py uses (results_buffer_<8 random characters>), the pattern run_mapping uses for the
+    directory it hands in (result_buffer_<...>), the bare names, and a buffer inside run_mapping's buffer."""
+    return ['results_buffer_' + random_suffix(rng), 'results_buffer_' + random_suffix(rng), 'results_buffer',
+            'result_buffer', 'result_buffer_' + random_suffix(rng), 'results_buffer_', 'results_buffer_stale',
+            'result_buffer_' + random_suffix(rng) + '/results_buffer']
+
+
+def effective_chunk(n_rows, n_processors, chunk_size):
+    # election.run_type_assignment_on_h5ad_cpu: chunk_size = min(ceil(n_rows / n_processors), chunk_size)
+    return min(max(1, -(-n_rows // n_processors)), chunk_size)
+
+
+def chunk_names(n_rows, c):
+    return {(r0, min(n_rows, r0 + c)): f'{r0}_{min(n_rows, r0 + c)}_assignment.json' for r0 in range(0, n_rows, c)}
+
+
+def stale_wins_somewhere(n_rows, c_stale, c_now):
+    """Would a stage that collected EVERY *.json of a buffer directory (sorted by name, later entries replacing
+    earlier ones per cell) hand back a stale cell?  True iff some stale chunk file sorts after the current
+    run's file for one of its rows."""
+    now = chunk_names(n_rows, c_now)
+    for (s0, s1), sn in chunk_names(n_rows, c_stale).items():
+        for (r0, r1), rn in now.items():
+            if max(s0, r0) < min(s1, r1) and sn > rn:
+                return True
+    return False
+
+
+def assign_inputs(ctx, rng, d):
+    """A mapping scenario, a second query with the SAME cell ids (other cells), and the query-marker cache built
+    (untraced) exactly as cli/from_specified_markers.py:_run_mapping builds it before it calls the stage."""
+    from cell_type_mapper.taxonomy.taxonomy_tree import TaxonomyTree
+    from cell_type_mapper.type_assignment.marker_cache_v2 import create_marker_cache_from_specified_markers
+    for attempt in range(8):
+        shutil.rmtree(d, ignore_errors=True)
+        sc = mapping_inputs(rng, d, n_cells=rng.randrange(6, 14))
+        # the earlier run's query: same obs index, every cell replaced by another one
+        shift = rng.randrange(1, len(sc.cell_ids))
+        earlier = np.roll(np.asarray(sc.query), shift, axis=0)
+        pipeline.write_query(d / 'query_earlier.h5ad', sc, encoding=rng.choice(['dense', 'csr', 'csc']), query=earlier)
+        with h5py.File(d / 'stats.h5', 'r') as f:
+            tree = TaxonomyTree.from_str(serialized_dict=f['taxonomy_tree'][()].decode('utf-8'))
+            ref_genes = json.loads(f['col_names'][()].decode('utf-8'))
+        try:
+            with quiet():
+                create_marker_cache_from_specified_markers(
+                    marker_lookup=json.load(open(d / 'markers.json')), reference_gene_names=ref_genes,
+                    query_gene_names=[pipeline.gname(g) for g in sc.query_genes],
+                    output_cache_path=d / 'marker_cache.h5', taxonomy_tree=tree, min_markers=2)
+        except Exception as e:    # noqa
+            ctx.dist('assign-input-preparation', f'regenerated after {type(e).__name__}')
+            continue
+        ctx.dist('assign-input-preparation', 'ok')
+        return sc
+    raise RuntimeError('could not generate a scenario whose marker cache can be built')
+
+
+def assign_job(label, sb, src, which, *, n_processors, chunk_size, seed, tmp='same', fault=None, pre=None):
+    ind = sb / 'in'
+    for fn in ('stats.h5', 'marker_cache.h5', 'query.h5ad', 'query_earlier.h5ad'):
+        if not (ind / fn).exists():
+            shutil.copy(src / fn, ind / fn)
+    job = {'label': label, 'stage': 'assign', 'fault': fault, 'pre': pre,
+           'args': {'query': str(ind / ('query.h5ad' if which == 'now' else 'query_earlier.h5ad')),
+                    'stats': str(ind / 'stats.h5'), 'marker_cache': str(ind / 'marker_cache.h5'),
+                    'n_processors': n_processors, 'chunk_size': chunk_size, 'bootstrap_factor': 0.5,
+                    'bootstrap_iteration': 5, 'rng_seed': seed, 'n_assignments': 3, 'normalization': 'log2CPM',
+                    'results_output_path': str(sb / 'tmp')}}
+    with_process_dirs(job, sb)
+    # where the stage may rewrite the query: the shared directory itself, another shared directory, or (no
+    # tmp_dir) the system temporary directory
+    job['args']['tmp_dir'] = {'same': str(sb / 'tmp'), 'other': str(sb / 'tmp2'), 'none': None}[tmp]
+    return job
+
+
+def history_assign(ctx, k):
+    """run_type_assignment_on_h5ad (what run_mapping calls) called directly with a results_output_path that is
+    shared: with what a killed earlier run left there (under every plausible buffer name), after a run that
+    really was killed, after a successful run, and by two runs at the same time."""
+    rng = ctx.rng
+    base = ctx.scratch / f'a{k}'
+    src = base / 'src'
+    sc = assign_inputs(ctx, rng, src)
+    n_rows = len(sc.cell_ids)
+    now = dict(n_processors=rng.choice([1, 2, 3]), chunk_size=rng.randrange(2, 6), seed=rng.randrange(10 ** 6))
+    c_now = effective_chunk(n_rows, now['n_processors'], now['chunk_size'])
+    # the earlier run: another chunk size; preferably one whose left-over files would win over the current ones
+    np_e = rng.choice([1, 2, 3])
+    cands = [c for c in range(1, n_rows + 1) if effective_chunk(n_rows, np_e, c) == c and c != c_now]
+    good = [c for c in cands if stale_wins_somewhere(n_rows, c, c_now)]
+    c_e = rng.choice(good or cands)
+    ctx.dist('assign-stale-chunk-files-sort-after-current', bool(good))
+    earlier = dict(n_processors=np_e, chunk_size=c_e, seed=rng.randrange(10 ** 6))
+    fresh_now, fresh_e, shared = sandbox(base, 'fresh_now'), sandbox(base, 'fresh_earlier'), sandbox(base, 'shared')
+    names = buffer_names(rng)
+    dirs = [str(shared / 'tmp' / n) for n in names]
+    plant = {'plant': {'dirs': [str(shared / 'tmp'), str(shared / 'out'), str(shared / 'systmp'), str(shared / 'tmp2')],
+                       'seed': rng.randrange(10 ** 6)}}
+    stale1 = dict(plant, stale_chunks={'from': 'assign-earlier', 'chunk_size': c_e, 'dirs': dirs})
+    stale2 = {'stale_chunks': {'from': 'assign-earlier', 'chunk_size': c_now, 'dirs': dirs}}
+    bad_r0 = c_e * rng.randrange(1, -(-n_rows // c_e)) if n_rows > c_e else 0
+    fault = {'how': rng.choice(['exit', 'raise']), 'code': 3, 'r0': bad_r0, 'delay': 0.3}
+    tmps = ['same', 'other', 'none']
+    H = 'assign-stage:'
+    jobs = [
+        (assign_job('assign-undisturbed', fresh_now, src, 'now', tmp=rng.choice(tmps), **now), H + 'undisturbed', True, None),
+        (assign_job('assign-earlier', fresh_e, src, 'earlier', tmp=rng.choice(tmps), **earlier), H + 'undisturbed', True, None),
+        (assign_job('assign-stale-buffers', shared, src, 'now', tmp='same', pre=stale1, **now),
+         H + 'stale-chunk-files-under-every-buffer-name', True, 'now'),
+        (assign_job('assign-stale-buffers-same-file-names', shared, src, 'now', tmp=rng.choice(tmps), pre=stale2, **now),
+         H + 'stale-chunk-files-named-like-this-runs', True, 'now'),
+        (assign_job('assign-killed', shared, src, 'earlier', tmp='same', fault=fault, **earlier), H + 'failing-run-worker', False, None),
+        (assign_job('assign-after-killed', shared, src, 'now', tmp=rng.choice(tmps), **now), H + 'success-after-failure', True, 'now'),
+        (assign_job('assign-again', shared, src, 'earlier', tmp=rng.choice(tmps), **earlier), H + 'success-after-success', True, 'earlier'),
+    ]
+    recs = run_batches(ctx, [[j for j, _, _, _ in jobs]], f'assign{k}')[0]
+    base_now, base_e = recs[0]['result'], recs[1]['result']
+    differs = base_now != base_e
+    ctx.dist('assign-earlier-result-differs-from-current', differs)
+    for rec, (job, hist, exp, cmp_to) in zip(recs, jobs):
+        bl = {'now': base_now, 'earlier': base_e, None: None}[cmp_to]
+        stale_hist = 'stale' in hist or hist.endswith('success-after-failure')
+        check_run(ctx, rec, hist, bl, expect_ok=exp,
+                  result_class='c19-stale-buffer-consumed' if stale_hist else 'result-differs-from-undisturbed-run')
+    if k == 0:
+        ctx.sample({'label': recs[2]['job']['label'], 'buffer_names_planted': names, 'chunk_now': c_now, 'chunk_earlier': c_e,
+                    'ops': [describe_op(recs[2], i) for i in range(min(14, len(recs[2]['ops'])))]}, limit=3)
+    # ---- two direct calls at the same time, one directory for everything temporary
+    sb = sandbox(base, 'conc')
+    ja = assign_job('assign-concurrent-A', sb, src, 'earlier', tmp='same', **earlier)
+    jb = assign_job('assign-concurrent-B', sb, src, 'now', tmp='same', **now)
+    concurrent_pair(ctx, f'a{k}', sb, ja, jb, base_e, base_now, 'assign-stage:concurrent',
+                    result_class='c19-concurrent-result-differs')
+    shutil.rmtree(base, ignore_errors=True)
 
 
 # ------------------------------------------------------------------ the other three stages
@@ -546,7 +892,7 @@ def stage_jobs(sb, src, info, tag, params, pre=None):
             f.create_dataset('metadata', data=json.dumps({'precomputed_path': str(ind / 'stats.h5')}).encode('utf-8'))
     roots = roots_of(sb)
     tmp = str(sb / 'tmp')
-    return [
+    jobs = [
         {'label': f'stats-{tag}', 'stage': 'stats', 'roots': roots, 'pre': pre,
          'args': {'h5ad': str(ind / 'ref.h5ad'), 'levels': info['levels'], 'out': str(sb / 'out' / 'stats_out.h5'),
                   'rows_at_a_time': params['rows'], 'tmp_dir': tmp, 'n_processors': params['np']}},
@@ -558,6 +904,9 @@ def stage_jobs(sb, src, info, tag, params, pre=None):
                   'n_per_utility': params['npu'], 'n_processors': params['np'], 'behemoth_cutoff': params['behemoth'],
                   'tmp_dir': tmp}},
     ]
+    # (not given a system temporary / working directory of their own: these stages use multiprocessing.Manager,
+    # whose pymp-* directory in the system temporary directory lives until the interpreter exits)
+    return jobs
 
 
 def history_stages(ctx, k):
@@ -602,8 +951,23 @@ def run(ctx):
         'HDF5 H5Fcreate probes an existing file with open(O_RDWR) before truncating it: the probe is dropped when the next '
         'operation of that process on that path is the truncating create (fstrace.to_ops)',
         'gc.collect() runs before a run counts as returned (destructor-time cleanup of FileTracker / AnnDataRowIterator)',
-        'a scratch directory is always given (tmp_dir is not None); concurrent runs use distinct output file names and a '
-        'private copy of the query when obsm_key is set',
+        'every mapping run and every direct call of the type-assignment stage is started with a system temporary directory '
+        '(TMPDIR) and a working directory inside the sandbox, which are traced and listed like the other directories; '
+        'mapping runs are made with a scratch directory and without one (tmp_dir=None: the system temporary directory is '
+        'then the scratch root of the model); concurrent runs use distinct output file names and a private copy of the '
+        'query when obsm_key is set',
+        'the three preparatory stages (statistics, reference markers, query markers) are NOT observed in the system '
+        'temporary directory: they use multiprocessing.Manager, whose pymp-* directory there lives until the interpreter exits',
+        'the model has ONE scratch root: a run that was given a second directory for temporary data (extended_result_dir of '
+        'a mapping run without tmp_dir; tmp_dir -- or, without one, the system temporary directory -- of a direct call of '
+        'the type-assignment stage when it differs from results_output_path) is encoded with the entries of that directory as '
+        'entries of the scratch root under reserved names (overlay_path), i.e. both directories are held to the rules of '
+        'the scratch root; concurrent pairs are run with one such directory only',
+        'the type-assignment stage (election_runner.run_type_assignment_on_h5ad) is called directly with the query-marker '
+        'cache built untraced the way _run_mapping builds it; stale chunk files are what the workers of an earlier run over '
+        'the same cell ids (other cells, other chunk size) write: the list that run returned, cut into its row chunks, '
+        'without the directly_assigned flag the stage adds after collecting; a direct call that FAILS is not required to '
+        'clean up (the property promises that for mapping runs only)',
         'tempfile uniqueness under concurrency is assumed (the two-run acceptor checks the observed names are distinct)',
         'generated references on which the untraced preparation (statistics, reference markers) itself raises are '
         'regenerated (counted in distribution.reference-preparation); such failures belong to C11/C13/C18',
@@ -621,6 +985,8 @@ def run(ctx):
     for k in range(n_stage):
         history_stages(ctx, k)
         shutil.rmtree(ctx.scratch / f's{k}', ignore_errors=True)
+    for k in range(ctx.n(2, 10)):
+        history_assign(ctx, k)
 
 
 def replay(ctx, rec):
